@@ -5,10 +5,18 @@ use crate::common::{r#type::dereference_changed, tools::HashType};
 
 #[inline]
 pub(crate) fn to_hash_type(ty: &Type) -> HashType {
+    // a reference without a lifetime means `&'static`, a written lifetime is kept
+    let lifetime =
+        if let Type::Reference(reference) = ty { reference.lifetime.as_ref() } else { None };
+
     let (ty, is_ref) = dereference_changed(ty);
 
     let ty = if is_ref {
-        syn::parse2(quote_spanned!( ty.span() => &'static #ty )).unwrap()
+        if let Some(lifetime) = lifetime {
+            syn::parse2(quote_spanned!( ty.span() => &#lifetime #ty )).unwrap()
+        } else {
+            syn::parse2(quote_spanned!( ty.span() => &'static #ty )).unwrap()
+        }
     } else {
         ty.clone()
     };
